@@ -8,7 +8,8 @@ the statements it judges, calls to functions that do not exist in the baseline o
 expanded in their callers when a crate's facts are loaded: the callee's blocks and locals are
 copied in (locals and blocks renumbered), its parameters become assignments from the call's
 arguments, its `return` becomes an assignment to the call's destination and a jump to the
-continuation. The helper itself stays in the crate (whole-crate audits still see it). Only named,
+continuation. A helper (or closure) whose every use was expanded is then dropped from the crate:
+its statements live on in the callers, where the whole-crate audits see them once, in context. Only named,
 non-recursive functions of the same crate with a body are expanded, at most three levels deep.
 
 The same is done for a *local closure that is called by name* (`let gather = |rows| {..};
@@ -141,7 +142,104 @@ def expand(crate_json):
         if not body:
             continue
         total += _expand_fn(f, helpers, 0, {f["path"]}, closures)
+    if total:
+        _drop_absorbed(crate_json, helpers, closures)
     return total
+
+
+def _fn_refs(x, out):
+    """paths of every function item mentioned (callee of a call, function passed as a value)"""
+    if isinstance(x, dict):
+        fn = x.get("fn")
+        if isinstance(fn, dict) and "path" in fn:
+            out.add(fn["path"])
+            out.add(_strip(fn["path"]))
+            r = fn.get("resolved")
+            if isinstance(r, dict) and "path" in r:
+                out.add(r["path"])
+                out.add(_strip(r["path"]))
+        for k, v in x.items():
+            if k not in ("sp", "fn_sp"):
+                _fn_refs(v, out)
+    elif isinstance(x, list):
+        for v in x:
+            _fn_refs(v, out)
+
+
+def _mentions(x, local):
+    if isinstance(x, dict):
+        if "l" in x and "p" in x and isinstance(x["l"], int):
+            return x["l"] == local or any(isinstance(e, dict) and e.get("i") == local for e in x["p"])
+        return any(_mentions(v, local) for k, v in x.items() if k not in ("sp", "fn_sp", "func"))
+    if isinstance(x, list):
+        return any(_mentions(v, local) for v in x)
+    return False
+
+
+def _only_feeds_inlined(body, local, depth=0):
+    """every use of `local` (a closure value) is the callee operand of an expanded call"""
+    if depth > 8:
+        return False
+    for bb in body["blocks"]:
+        for s in bb["stmts"]:
+            if "lhs" in s and s["lhs"]["l"] == local and not s["lhs"]["p"]:
+                continue                                    # its definition
+            if not _mentions(s, local):
+                continue
+            if s.get("inlparam"):
+                # handed to an expanded helper / closure as a parameter: what happens to it there
+                rvp = s.get("rv") or {}
+                pl = _op_place(rvp.get("op")) if rvp.get("k") == "use" else None
+                if pl is not None and pl == {"l": local, "p": []} and not s["lhs"]["p"] and \
+                        _only_feeds_inlined(body, s["lhs"]["l"], depth + 1):
+                    continue
+                return False
+            rv = s.get("rv") or {}
+            if "lhs" in s and not s["lhs"]["p"] and rv.get("k") == "ref" and rv["place"] == {"l": local, "p": []}:
+                if _only_feeds_inlined(body, s["lhs"]["l"], depth + 1):
+                    continue
+            return False
+        if _mentions({k: v for k, v in bb["term"].items() if k != "func"}, local):
+            return False
+    return True
+
+
+def _drop_absorbed(crate_json, helpers, closures):
+    """A new helper or locally called closure whose every use was expanded is represented by its
+    copies in the callers; the function itself is dropped so that whole-crate audits do not count
+    its sites twice."""
+    drop = set()
+    # closures: every aggregate creating it feeds expanded calls only
+    made = {}
+    for f in crate_json["fns"]:
+        body = f.get("body")
+        if not body:
+            continue
+        for bb in body["blocks"]:
+            for s in bb["stmts"]:
+                rv = s.get("rv") or {}
+                if rv.get("k") == "agg" and rv.get("agg") == "closure" and rv.get("closure") in closures \
+                        and "lhs" in s and not s["lhs"]["p"]:
+                    ok = _only_feeds_inlined(body, s["lhs"]["l"])
+                    made[rv["closure"]] = made.get(rv["closure"], True) and ok
+                elif rv.get("k") == "agg" and rv.get("agg") == "closure" and rv.get("closure") in closures:
+                    made[rv["closure"]] = False
+    drop |= {c for c, ok in made.items() if ok}
+    # helpers: no call and no function value refers to them any more
+    refs = set()
+    for f in crate_json["fns"]:
+        if f["path"] in helpers:
+            continue                      # a helper's own body does not keep another helper alive
+        if f.get("body"):
+            _fn_refs(f["body"], refs)
+    for hp in helpers:
+        if hp not in refs and _strip(hp) not in refs:
+            drop.add(hp)
+    if drop:
+        # an absorbed closure's copies were made from closures kept in the bodies of other
+        # absorbed functions too; only exact paths are dropped (closures nested in them stay)
+        crate_json["fns"] = [f for f in crate_json["fns"] if f["path"] not in drop]
+        crate_json["absorbed"] = sorted(drop)
 
 
 def new_direct_closures(crate_json):
@@ -188,7 +286,7 @@ def _find_closure_agg(body, op, cpath):
         bi, si, s = d[0]
         rv = s["rv"]
         if rv["k"] == "agg" and rv.get("agg") == "closure":
-            return (bi, si, s) if rv.get("closure") == cpath else None
+            return (bi, si, s) if cpath is None or rv.get("closure") == cpath else None
         if rv["k"] in ("use", "cast"):
             pl = _op_place(rv["op"])
         elif rv["k"] in ("ref", "rawptr"):
@@ -207,8 +305,16 @@ def _subst_captures(x, self_local, caps):
                 p = x["p"]
                 j = 1 if p and p[0] == "*" else 0
                 if len(p) > j and isinstance(p[j], dict) and p[j].get("closure") and p[j].get("f") in caps:
-                    x["l"] = caps[p[j]["f"]]
-                    x["p"] = p[j + 1:]
+                    k = p[j]["f"]
+                    rest = p[j + 1:]
+                    ref = caps.get(("ref", k))
+                    if ref is not None and rest and rest[0] == "*":
+                        # a variable captured by reference: `*(*_1).k` is that variable itself
+                        x["l"] = ref["l"]
+                        x["p"] = copy.deepcopy(ref["p"]) + rest[1:]
+                    else:
+                        x["l"] = caps[k]
+                        x["p"] = rest
             return
         for k, v in x.items():
             if k in ("sp", "fn_sp", "func", "ty", "from_ty", "arg_tys", "dest_ty", "targs", "fields"):
@@ -240,8 +346,14 @@ def _capture_locals(body, agg, cbody, memo):
     scan(cbody.get("debug", []))
     caps = {}
     ins = []
+    defs = _single_defs(body)
     for k, op in enumerate(s["rv"]["ops"]):
         pl = _op_place(op)
+        if pl is not None and not pl["p"]:
+            d = defs.get(pl["l"])
+            if d and len(d) == 1 and d[0][2] is not None and d[0][2]["rv"]["k"] == "ref" and \
+                    not any(isinstance(e, dict) and "i" in e for e in d[0][2]["rv"]["place"]["p"]):
+                caps[("ref", k)] = d[0][2]["rv"]["place"]
         ty = body["locals"][pl["l"]]["ty"] if pl is not None and not pl["p"] else tys.get(k, "?")
         body["locals"].append({"ty": ty})
         caps[k] = len(body["locals"]) - 1
@@ -275,10 +387,18 @@ def _expand_fn(f, helpers, depth, stack, closures=None):
         h = helpers.get(cp) or helpers.get(_strip(cp))
         caps = None
         params = term["args"]
-        if h is None and cp in closures and cp != f["path"] and cp not in chain and len(term["args"]) == 2 and \
-                ((term.get("func") or {}).get("k") or {}).get("fn", {}).get("path") in CALL_TRAITS:
+        tpath = ((term.get("func") or {}).get("k") or {}).get("fn", {}).get("path")
+        agg = None
+        if h is None and tpath in CALL_TRAITS and len(term["args"]) == 2:
+            if cp in closures:
+                agg = _find_closure_agg(body, term["args"][0], cp)
+            elif cp == tpath:
+                # a call through a generic `F: Fn(..)` parameter of an expanded helper: after the
+                # expansion the closure that was passed in is known
+                agg = _find_closure_agg(body, term["args"][0], None)
+                cp = agg[2]["rv"]["closure"] if agg is not None else cp
+        if agg is not None and cp in closures and cp != f["path"] and cp not in chain:
             c = closures[cp]
-            agg = _find_closure_agg(body, term["args"][0], cp)
             tup = None
             tl = _op_place(term["args"][1])
             if tl is not None and not tl["p"]:
@@ -337,7 +457,8 @@ def _expand_fn(f, helpers, depth, stack, closures=None):
             body["blocks"].append(nb)
         # the call block: parameters := arguments, then enter the helper
         for i, a in enumerate(params):
-            bb["stmts"].append({"lhs": {"l": dl + 1 + i, "p": []}, "rv": {"k": "use", "op": copy.deepcopy(a)}, "sp": sp})
+            bb["stmts"].append({"lhs": {"l": dl + 1 + i, "p": []}, "rv": {"k": "use", "op": copy.deepcopy(a)},
+                                "sp": sp, "inlparam": h["path"]})
         bb["term"] = {"sp": sp, "k": "goto", "t": db, "inlined": h["path"]}
         n += 1
     return n
